@@ -751,12 +751,13 @@ def check_C02(ctx):
 
 # ---------------------------------------------------------------- C04
 C04_THMS = ['Theo.C04_parse_sound', 'Theo.C04_parse_complete', 'Theo.C04_parse_iff', 'Theo.C04_parse_fuel_ok', 'Theo.C04_errors_not_lost',
-            'Theo.C04_static_iff', 'Theo.C04_parser_shape', 'Theo.C04_accepts_iff', 'Theo.C04_compile_iff', 'Theo.C04_literal_rule']
+            'Theo.C04_static_iff', 'Theo.C04_parser_shape', 'Theo.C04_accepts_iff', 'Theo.C04_compile_iff', 'Theo.C04_literal_rule',
+            'Theo.C04_sugar_apply', 'Theo.C04_sugar_frontEnd', 'Theo.C04_compile_iff_sugar', 'Theo.C04_stdDefs_shape']
 
 
 def check_C04(ctx, thms=None):
     from gen import strict
-    build_all(ctx, ['Theo.Props.C04', 'Theo.Props.C04Static'], thms or C04_THMS)
+    build_all(ctx, ['Theo.Props.C04', 'Theo.Props.C04Static', 'Theo.Props.C04Sugar'], thms or C04_THMS)
     if ctx.harness is None:
         return finish(ctx)
     r = ctx.rnd
